@@ -186,6 +186,48 @@ func callableRules(c *Ctx) {
 				pickS(only, "Set is skipped iff args[i] == nil", "the argument thunk skips Set under another condition: some non-nil (e.g. typed-nil) arguments would be replaced by the zero value: "+got.String()), s)
 		}
 	}
+	// typeNilable: an untyped nil is accepted exactly for the kinds whose values can be nil (powerset analysis of the
+	// function over the finite domain of reflect.Kind; nothing is executed)
+	if q := c.F("typeNilable"); q.ok() {
+		kinds := []string{"Invalid", "Bool", "Int", "Int8", "Int16", "Int32", "Int64", "Uint", "Uint8", "Uint16", "Uint32", "Uint64", "Uintptr", "Float32", "Float64",
+			"Complex64", "Complex128", "Array", "Chan", "Func", "Interface", "Map", "Pointer", "Slice", "String", "Struct", "UnsafePointer"}
+		nilable := map[string]bool{"Chan": true, "Func": true, "Interface": true, "Map": true, "Pointer": true, "Slice": true, "UnsafePointer": true}
+		var domain, want uint64
+		okd := true
+		for _, k := range kinds {
+			v, okc := P.PkgConstInt("reflect", k)
+			if !okc || v < 0 || v > 62 {
+				okd = false
+				continue
+			}
+			domain |= 1 << uint(v)
+			if nilable[k] {
+				want |= 1 << uint(v)
+			}
+		}
+		if !okd || len(q.fn.Params) != 1 {
+			q.undecided("COND", "typeNilable is true exactly for the nilable kinds", "reflect.Kind constants could not be resolved")
+		} else {
+			isK := func(v ssa.Value) bool {
+				call, ok := v.(*ssa.Call)
+				return ok && call.Call.IsInvoke() && call.Call.Method.Name() == "Kind" && call.Call.Value == ssa.Value(q.fn.Params[0])
+			}
+			got, okt, why := P.TrueSet(q.fn, isK, domain)
+			if !okt {
+				q.undecided("COND", "typeNilable is true exactly for the nilable kinds", "typeNilable is no longer a pure function of t.Kind() compared with constants: "+why)
+			} else {
+				var diff []string
+				for _, k := range kinds {
+					v, _ := P.PkgConstInt("reflect", k)
+					if (got^want)&(1<<uint(v)) != 0 {
+						diff = append(diff, k)
+					}
+				}
+				q.add("COND", "typeNilable is true exactly for the nilable kinds", got == want,
+					pickS(got == want, "true for Chan, Func, Interface, Map, Pointer, Slice, UnsafePointer and false for the other 20 kinds", "typeNilable answers wrongly for kind(s) "+strings.Join(diff, ", ")+": an untyped nil would be accepted for a type that has no nil (Call would invoke the function with a zero value instead of returning an error) or rejected for one that has"))
+			}
+		}
+	}
 	// Set on result targets only inside the results thunks
 	var stray []ssa.Instruction
 	for _, fn := range P.Funcs {
@@ -193,9 +235,31 @@ func callableRules(c *Ctx) {
 		if n == "CallArgs$ret1$MakeFunc1" || n == "CallResults$ret1$MakeFunc1" || n == "CallResultsSlice$ret1$MakeFunc1" {
 			continue
 		}
-		stray = append(stray, P.CallsTo(fn, "(reflect.Value).Set")...)
+		if !strings.Contains(P.Pos(fn.Pos()), "callable.go") {
+			continue
+		}
+		// every reflect.Value method that writes through the Value (Set*, Grow, Clear, Send, Close) and reflect.Copy
+		stray = append(stray, an.AllInstrs(fn, func(in ssa.Instruction) bool {
+			cc := an.CallCommonOf(in)
+			if cc == nil {
+				return false
+			}
+			n := P.CalleeName(cc)
+			if n == "reflect.Copy" {
+				return true
+			}
+			if m, ok := strings.CutPrefix(n, "(reflect.Value)."); ok {
+				return strings.HasPrefix(m, "Set") || m == "Grow" || m == "Clear" || m == "Send" || m == "TrySend" || m == "Close"
+			}
+			return false
+		})...)
 	}
-	c.C.Add("WR", "callable.go", "result targets are written only by the results thunks", len(stray) == 0, "no other reflect.Value.Set in the package")
+	var sp []string
+	for _, in := range stray {
+		sp = append(sp, P.InstrPos(in))
+	}
+	c.C.Add("WR", "callable.go", "result targets are written only by the results thunks", len(stray) == 0,
+		pickS(len(stray) == 0, "no reflect.Value mutator (Set*, Grow, Clear, Send, Close, reflect.Copy) outside the thunks", "a reflect.Value is mutated outside the thunks: a target can be touched although Call later returns an error without invoking the function"), sp...)
 }
 
 // loopBodyOf: the entry block of the innermost loop body containing in (approximated by the
